@@ -26,13 +26,6 @@ def close(a, b, scale=1.0, rel=1e-9):
 
 
 def run(tier):
-    SL_atom = SL.atom
-
-    def atom2(a):
-        if a[0] == "ln2sq":
-            return SL.math.log(2.0) ** 2
-        return SL_atom(a)
-    SL.atom = atom2
     ck = Check("C10", tier)
     ck.rule = "one case per TLC-enumerated (point set, kernel composition, mean function); distinct by construction"
     ck.assumptions = ["families with rational kernel values: SE with 1/(2L^2) = m ln2, RQ with alpha in {1,2}, noise variances 2^j, change-point width 1/ln2",
@@ -135,5 +128,4 @@ def run(tier):
         except Exception as ex:
             ck.violation("mean evaluation raised", {"X": c["X"], "mean": md, "error": repr(ex)}, site="mean")
     ck.traces += len(r.printed)
-    SL.atom = SL_atom
     return ck.finish()
